@@ -1,4 +1,4 @@
-SPECIFICATION MSpec
+SPECIFICATION GSpec
 CONSTANTS
   Vals = {1,2,3}
   Callers = {"owner","stranger"}
